@@ -164,25 +164,33 @@ def arange (a b : Int) : List Int := (List.range (b - a).toNat).map fun (k : Nat
 /-- `off.unsqueeze(-1) - ar` followed by `"... t -> t ..."`: row `j` holds `off[pos] - ar[j]` -/
 def subLast (off : List Int) (ar : List Int) : List (List Int) := ar.map fun a => off.map (· - a)
 
-/-- `torch.gather(t, 0, idx)` with `idx` time-major -/
-def Stack.gather0E (s : Stack β) (idx : List (List Int)) : Except Err (Stack β) := do
-  let rows ← idx.mapM fun irow =>
-    irow.zipIdx.mapM fun ip =>
-      match pyIndex s.rows.length ip.1 with
-      | some k => match (s.rows[k]?).bind (·[ip.2]?) with
-        | some v => Except.ok v
-        | none => .error .IndexError
-      | none => .error .IndexError
-  return { s with rows := rows }
+/-- all entries present, or nothing -/
+def allSome {α : Type} : List (Option α) → Option (List α)
+  | [] => some []
+  | none :: _ => none
+  | some a :: l => (allSome l).map (a :: ·)
+
+/-- element `idx[j][pos]` of the leading axis, at trailing position `pos` (`none`: out of range) -/
+def Stack.gatherOpt (s : Stack β) (idx : List (List Int)) : List (List (Option β)) :=
+  idx.map fun irow => irow.zipIdx.map fun ip =>
+    (pyIndex s.rows.length ip.1).bind fun k => (s.rows[k]?).bind (·[ip.2]?)
+
+/-- `torch.gather(t, 0, idx)` with `idx` time-major (IndexError when any index is out of range) -/
+def Stack.gather0E (s : Stack β) (idx : List (List Int)) : Except Err (Stack β) :=
+  match allSome ((s.gatherOpt idx).map allSome) with
+  | some rows => .ok { s with rows := rows }
+  | none => .error .IndexError
+
+/-- one `scatter` write: `t[i][pos] = v` (`none`: out of range) -/
+def scatter1 (d : List (List β)) (i : Int) (pos : Nat) (v : β) : Option (List (List β)) :=
+  (pyIndex d.length i).map fun k => d.modify k (·.set pos v)
 
 /-- `torch.scatter(t, 0, idx, src)` / `t.scatter_(0, idx, src)` with `idx`, `src` time-major -/
-def Stack.scatter0E (s : Stack β) (idx : List (List Int)) (src : Stack β) : Except Err (Stack β) := do
-  let rows ← (idx.zip src.rows).foldlM (fun (d : List (List β)) ir =>
-      (ir.1.zip ir.2).zipIdx.foldlM (fun (d : List (List β)) ivp =>
-        match pyIndex d.length ivp.1.1 with
-        | some k => Except.ok (d.modify k (·.set ivp.2 ivp.1.2))
-        | none => .error .IndexError) d) s.rows
-  return { s with rows := rows }
+def Stack.scatter0E (s : Stack β) (idx : List (List Int)) (src : Stack β) : Except Err (Stack β) :=
+  match (idx.zip src.rows).foldlM (fun (d : List (List β)) ir =>
+      (ir.1.zip ir.2).zipIdx.foldlM (fun (d : List (List β)) ivp => scatter1 d ivp.1.1 ivp.2 ivp.1.2) d) s.rows with
+  | some rows => .ok { s with rows := rows }
+  | none => .error .IndexError
 
 /-- `argtest.index(name, value, length)` (`inferno/_internal/argtest.py`): in `[-length, length)` or ValueError -/
 def argIndex (value length : Int) : Except Err Int :=
